@@ -116,3 +116,94 @@ def chain_class_argparse(ir):
     mid = parse_class(emit_class(ir, class_name="C", emit_default_doc=False, word_wrap=False))
     fd = argparse_function(mid, emit_default_doc=False, function_name="set_cli_args", function_type="static", word_wrap=False)
     return argparse_ast(fd, function_name="set_cli_args")
+
+
+def chain_argparse_class(ir):
+    """C05, one chain: description -> argparse function -> description -> class -> description"""
+    from doctrans.emit import argparse_function
+    from doctrans.emit import class_ as emit_class
+    from doctrans.parse import argparse_ast
+    from doctrans.parse import class_ as parse_class
+
+    fd = argparse_function(ir, emit_default_doc=False, function_name="set_cli_args", function_type="static", word_wrap=False)
+    mid = argparse_ast(fd, function_name="set_cli_args")
+    return parse_class(emit_class(mid, class_name="C", emit_default_doc=False, word_wrap=False))
+
+
+def chain_class_function(ir):
+    """C05, one chain: description -> class -> description -> function -> description (signature half)"""
+    from doctrans.emit import class_ as emit_class
+    from doctrans.emit import function as emit_function
+    from doctrans.parse import class_ as parse_class
+    from doctrans.parse import function as parse_function
+
+    mid = parse_class(emit_class(ir, class_name="C", emit_default_doc=False, word_wrap=False))
+    fd = emit_function(mid, function_name="f", function_type="static", emit_default_doc=False, inline_types=True, emit_as_kwonlyargs=True)
+    return parse_function(fd)
+
+
+def _hop(kind, ir):
+    """one emit/parse hop of the given kind (helpers for the chain laws below)"""
+    from doctrans.emit import argparse_function
+    from doctrans.emit import class_ as emit_class
+    from doctrans.emit import function as emit_function
+    from doctrans.parse import argparse_ast
+    from doctrans.parse import class_ as parse_class
+    from doctrans.parse import function as parse_function
+
+    if kind == "class":
+        return parse_class(emit_class(ir, class_name="C", emit_default_doc=False, word_wrap=False))
+    if kind == "function":
+        return parse_function(emit_function(ir, function_name="f", function_type="static", emit_default_doc=False, inline_types=True, emit_as_kwonlyargs=True))
+    return argparse_ast(argparse_function(ir, emit_default_doc=False, function_name="set_cli_args", function_type="static", word_wrap=False), function_name="set_cli_args")
+
+
+def chain_function_class(ir):
+    return _hop("class", _hop("function", ir))
+
+
+def chain_argparse_function(ir):
+    return _hop("function", _hop("argparse", ir))
+
+
+def class_roundtrip_documented(ir):
+    """as class_roundtrip; verified with the class docstring PRESENT and the docstring parser answering an arbitrary description of the same parameters"""
+    from doctrans.emit import class_ as emit_class
+    from doctrans.parse import class_ as parse_class
+
+    return parse_class(emit_class(ir, class_name="C", emit_default_doc=False, word_wrap=False))
+
+
+def function_roundtrip_documented(ir, kwonly):
+    """as function_signature_roundtrip; verified with the def's docstring PRESENT and the docstring parser answering an arbitrary description of the same parameters"""
+    from doctrans.emit import function as emit_function
+    from doctrans.parse import function as parse_function
+
+    fd = emit_function(ir, function_name=None, function_type="static", emit_default_doc=False, inline_types=True, emit_as_kwonlyargs=kwonly)
+    return parse_function(fd)
+
+
+
+# the same chains, verified on the path the emitted (documented) artefacts really take: see contracts/parse.py `_chain_documented`
+def chain_class_function_documented(ir):
+    return _hop("function", _hop("class", ir))
+
+
+def chain_function_class_documented(ir):
+    return _hop("class", _hop("function", ir))
+
+
+def chain_function_argparse_documented(ir):
+    return _hop("argparse", _hop("function", ir))
+
+
+def chain_class_argparse_documented(ir):
+    return _hop("argparse", _hop("class", ir))
+
+
+def chain_argparse_class_documented(ir):
+    return _hop("class", _hop("argparse", ir))
+
+
+def chain_argparse_function_documented(ir):
+    return _hop("function", _hop("argparse", ir))
